@@ -246,3 +246,70 @@ Theorem C02_resolved_nodes_by_value :
                  is_composite_or_variant (t_def t') = true /\ (rank id' <= rank id)%nat.
 Proof. exact resolve_rec_bv. Qed.
 Print Assumptions C02_resolved_nodes_by_value.
+
+(** ** indirection clause from a DECIDABLE condition on the registry
+    (Model/SizedReg.v, Proofs/RankGraph.v, Proofs/SizedRegProofs.v; instances in
+    Proofs/ExamplesSizedReg.v).
+
+    [reg_bv_edge r s pa pb]: some item entry (struct / enum entry, not substituted, non-empty
+    namespace) with path [pa] has a field [f] with [is_boxed_gen f = false] whose type reaches,
+    by value, a struct / enum entry that is printed as the item path [pb] ([bv_targets]: follows
+    the resolver; tuples, arrays, compact wrappers, the look-through of [Cow], the arguments of
+    [Option] / [Result] / [Range] / [RangeInclusive] and - conservatively - of substituted paths
+    are traversed; sequences, bit sequences, the arguments of every other struct / enum entry
+    (heap prelude collections, generated items) and the type ids the resolver prints as a generic
+    parameter [_i] of the enclosing item cut).
+    [by_value_acyclicb r s]: the longest-path table computed by [length] rounds over the rows of
+    that graph is a strictly decreasing rank ([bv_rank_of r s : list string -> nat], on paths).
+
+    Relation to [C02_sized_partial]: that theorem takes a rank on ids as a hypothesis whose last
+    clause asks ALL struct / enum entries with one path to have one rank; it is not satisfiable
+    on a registry with  A { x: Option<B> }, B { y: Option<u8> }  (two [Option] entries in a chain,
+    [sz_chain_not_ranked]).  The statements below do not go through [bv_ranked]: the rank lives
+    on item paths, so "same path, same rank" holds by construction and no hypothesis beyond
+    [root_fresh] and the boolean is needed.
+
+    Scope, as for [C02_sized_partial]: generic parameters are opaque.  [item_edge] does not look
+    into the arguments of a generated generic item, so a cycle that exists only after
+    instantiation ([Holder<T> { v: T }], [B { a: Holder<B> }]) is neither an [item_edge] cycle
+    nor a [reg_bv_edge] cycle; the run-time checker [sizedb] does follow exposed generic
+    arguments ([sz_instantiation_gap]). *)
+From V Require Import Model.SizedReg Proofs.RankGraph Proofs.SizedRegProofs.
+
+(** every by-value edge between generated items is an edge of the registry's by-value graph *)
+Theorem C02_item_edges_in_registry :
+  forall r s, root_fresh s -> forall teq m, generate r s teq = Ok m ->
+  forall pa pb, item_edge s m pa pb -> reg_bv_edge r s pa pb.
+Proof. exact item_edges_in_registry. Qed.
+Print Assumptions C02_item_edges_in_registry.
+
+(** the boolean decides acyclicity of the registry's by-value graph (both directions) *)
+Theorem C02_by_value_acyclicb_iff :
+  forall r s, by_value_acyclicb r s = true <-> (forall n p, ~ walk (reg_bv_edge r s) n p p).
+Proof. exact by_value_acyclicb_iff. Qed.
+Print Assumptions C02_by_value_acyclicb_iff.
+
+(** when it holds, the computed rank strictly decreases along every registry edge .. *)
+Theorem C02_by_value_rank :
+  forall r s, by_value_acyclicb r s = true ->
+  forall pa pb, reg_bv_edge r s pa pb -> (bv_rank_of r s pb < bv_rank_of r s pa)%nat.
+Proof. exact by_value_acyclicb_rank. Qed.
+Print Assumptions C02_by_value_rank.
+
+(** .. hence along every by-value edge between generated items .. *)
+Theorem C02_sized_rank :
+  forall r s, root_fresh s -> by_value_acyclicb r s = true ->
+  forall teq m, generate r s teq = Ok m ->
+  forall pa pb, item_edge s m pa pb -> (bv_rank_of r s pb < bv_rank_of r s pa)%nat.
+Proof. exact sized_rank_pinned. Qed.
+Print Assumptions C02_sized_rank.
+
+(** .. and no by-value walk between generated items returns to its start: every cycle between
+    generated types passes through a field the generator boxes, a [Vec], a heap collection or a
+    generic parameter *)
+Theorem C02_sized :
+  forall r s, root_fresh s -> by_value_acyclicb r s = true ->
+  forall teq m, generate r s teq = Ok m ->
+  forall n p, ~ walk (item_edge s m) n p p.
+Proof. exact sized_pinned. Qed.
+Print Assumptions C02_sized.
